@@ -864,8 +864,8 @@ def run_world_case(case, horizon):
                         vm.machine.events.post("ev_save_eject")
                         mon.obs["delayed_eject_events_before_rest"] = \
                             mon.obs.get("delayed_eject_events_before_rest", 0) + 1
-                        vm.advance(0.5)
                         seen = [mon.saves_announced]
+                        vm.advance(0.5)
 
                         def tick():
                             # a ball still rolling when the settle began may drain and be saved after the event above:
